@@ -16,6 +16,13 @@ isolated; every isolated parameter is a disagreement of its own.
 
 The expected declared type / width / signedness is the NODE's (keyword, precision, unsigned), the expected value and
 unit are those of the node's value object - so a value object that lost a type attribute on the way is observed.
+The expectation is taken from the environment as parsed, BEFORE any exporter is constructed.
+
+Histories of exports ("each configuration export" of one environment): every (back-end, option set) is also run after
+every single earlier export (back-end x option set, 22 x 22 ordered pairs; thorough: also after every ordered pair of
+earlier back-ends) made from the SAME environment object, for every parameter family.  Text identical to the export of
+a freshly parsed environment (read back in the batch phase) needs no second read-back; text that differs is read back
+and compared with the environment as parsed.
 
 Not demanded (left out of the alphabet, see DESIGN.md "Not demanded"):
   * Fortran signedness: unsigned values above the signed maximum of the width are not exported to Fortran;
@@ -53,7 +60,11 @@ RULE = ("case = (back-end, option set, parameter) with parameter = (dtype/width,
         "by index; distinct = distinct (back-end, option set, parameter spec); non-trivial = the read-back produced a "
         "symbol to compare (not a skipped / unparsable input).  Additional cases: selections (query/tags) x back-end, "
         "ordered pairs of representative parameters x back-end (text compositionality for compiled back-ends, "
-        "read-back otherwise), parse() called twice.")
+        "read-back otherwise), parse() called twice.  Histories: case = (earlier exports [(back-end, option set)] made "
+        "from the same environment object, back-end, option set, parameter): all 22 x 22 ordered (earlier, later) "
+        "option-set pairs x every family (thorough: also two earlier exports, 9 x 9 back-ends); expectation = the "
+        "environment as parsed; an export whose text equals the fresh export's text (read back in the batch phase) is "
+        "decided by that read-back, any other text is read back itself.")
 ASSUMPTIONS = [
     "gcc/g++ 12, gfortran 12, rustc, bash 5, python json/yaml/tomllib are the reference semantics of the formats",
     "printer programs dispatch on the declared type inside the target language (_Generic, templates, generic "
@@ -63,6 +74,10 @@ ASSUMPTIONS = [
     "float32 targets are compared after rounding to single precision with 1 ulp slack",
     "a declaration line of C/C++/Fortran/Rust means the same next to any other declaration line (used to reduce "
     "ordered pairs whose text is the exact composition of the single exports)",
+    "the reader's verdict depends on the exported text only: an export made after earlier exports whose text (both "
+    "parse() calls) is identical to that of a freshly parsed environment with the same parameter list is decided by "
+    "the read-back of the latter in the batch phase",
+    "earlier exports of a history are made without select() (the exporter then holds the environment's own objects)",
 ]
 
 BACKENDS = ["dip", "json", "yaml", "toml", "bash", "c", "cpp", "fortran", "rust"]
@@ -729,7 +744,54 @@ _STAGE = dict(export="export-raises", compile="does-not-compile", run="runtime-c
               absent="unselected-symbol-defined", env="env-not-parsed")
 
 
+# class-level data attributes of the exporter classes: restored before every environment is parsed, so that whatever an
+# exporter leaves on its class is carried between the exports of ONE history only, never from one case to the next
+_CLS_SNAP = None
+
+
+def _exporter_classes():
+    import inspect
+    from scinumtools.dip import config as cfg
+    seen = []
+    for _, c in inspect.getmembers(cfg, inspect.isclass):
+        for k in c.__mro__:
+            if k.__module__.startswith("scinumtools.dip.config") and k not in seen:
+                seen.append(k)
+    return seen
+
+
+def _class_data(c):
+    return {k: v for k, v in vars(c).items() if not k.startswith("__") and not callable(v) and
+            not isinstance(v, (property, classmethod, staticmethod))}
+
+
+def class_state_snapshot():
+    global _CLS_SNAP
+    import copy
+    _CLS_SNAP = {c: copy.deepcopy(_class_data(c)) for c in _exporter_classes()}
+
+
+def class_state_restore():
+    import copy
+    if _CLS_SNAP is None:
+        return
+    for c, snap in _CLS_SNAP.items():
+        cur = _class_data(c)
+        for k in cur:
+            if k not in snap:
+                delattr(c, k)
+        for k, v in snap.items():
+            same = False
+            try:
+                same = k in cur and type(cur[k]) is type(v) and bool(cur[k] == v)
+            except Exception:
+                same = False
+            if not same or isinstance(v, (list, dict, set)):
+                setattr(c, k, copy.deepcopy(v))
+
+
 def _parse_env(src):
+    class_state_restore()
     from scinumtools.dip import DIP
     with DIP() as dip:
         dip.add_string(src)
@@ -755,8 +817,21 @@ def export_text(backend, opt, env, sel, keys_ranks):
     return t1, t2
 
 
-def run_batch(backend, opt, specs, sel=None):
-    """Export + read back one environment.
+def _history(env, specs, before):
+    """the earlier exports of a history: every (back-end, option set id) of `before` exports the SAME environment object
+    (no selection: the exporter then holds the environment's own value objects).  Their text is not judged here (that
+    is done in the batch phase); returns 'ok' / 'raises:<Type>' per step."""
+    hist = []
+    for b, oid in (before or []):
+        bo = optset(b, oid)
+        ho = outcome(export_text, b, bo, env, None, [(s["name"], _mode(b, bo, s)) for s in specs], timeout=60)
+        hist.append("ok" if ho[0] == "ok" else "raises:" + ho[1])
+    return hist
+
+
+def run_batch(backend, opt, specs, sel=None, before=None):
+    """Export + read back one environment (after the exports `before` = [(back-end, option set id), ...] were made from
+    the same environment object).  The expectation is read from the environment BEFORE any exporter touched it.
     -> ("ok", {spec id: None | (behaviour, expected, observed, tags)}, info) | ("fail", stage, message)"""
     from scinumtools.dip.settings import Format
     try:
@@ -772,16 +847,19 @@ def run_batch(backend, opt, specs, sel=None):
         plan = [(s, key, _mode(backend, opt, s)) for s, key in chosen]
         if any(skip_reason(backend, opt, s) for s, _, _ in plan):
             raise HarnessError("not-demanded parameter inside a batch")
+        exps = {}
+        for s, key, mode in plan:
+            if s["name"] not in types:
+                return ("fail", "env", "node %s missing from the environment" % s["name"])
+            exps[s["id"]] = _expected(types[s["name"]])      # snapshot (new lists) of the environment as parsed
+        hist = _history(env, specs, before)
         o = outcome(export_text, backend, opt, env, sel, [(key, mode) for s, key, mode in plan], timeout=60)
         if o[0] != "ok":
             return ("fail", "export", "%s: %s" % (o[1], o[2]))
         text, text2 = o[1]
-        items, exps = [], {}
+        items = []
         for s, key, mode in plan:
-            if s["name"] not in types:
-                return ("fail", "env", "node %s missing from the environment" % s["name"])
-            e = _expected(types[s["name"]])
-            exps[s["id"]] = e
+            e = exps[s["id"]]
             rank = 0 if e["shape"] is None else len(e["shape"])
             items.append(Item(symbol(backend, opt, key), rank, "define" if mode == "define" else "const", e["none"]))
         absent = []
@@ -826,7 +904,7 @@ def run_batch(backend, opt, specs, sel=None):
         differs = sum(1 for s, _, _ in plan if s.get("origin") != "modunit" and
                       exps[s["id"]]["flat"] != (_flat(s["value"]) if s["value"] is not None else None))
         info = dict(programs=nprog, compared=ncmp, extra=extra, twice_differs=text2 != text, symbols=len(items),
-                    env_differs=differs)
+                    env_differs=differs, history=hist)
         return ("ok", results, info)
     finally:
         isolation.tables_restore()
@@ -1087,6 +1165,152 @@ def run_pairs(backend, first_id, sh, tier="quick"):
                 sh.count("%s:pair-fails-like-single" % backend)
 
 
+# ---------------------------------------------------------------------------------------------- histories of exports
+# "For every parsed environment, EACH configuration export ...": an environment object is commonly exported by several
+# back-ends in a row.  A history = earlier exports [(back-end, option set), ...] made from one freshly parsed
+# environment object, then the export under test from the same object.  The export under test is compared with the
+# environment as it was parsed (expectation taken before the first exporter ran).
+#
+# Reduction: the reader's verdict is a function of the exported text.  When the text after the history is identical to
+# the text the same exporter gives for a freshly parsed environment of the same source (that text is read back in the
+# batch phase: same family, same window, same parameter list), nothing is left to compare.  Only when the texts differ
+# the export is read back for real; a parameter is reported when it disagrees with the environment in a way it does
+# not disagree without the history (so the recorded findings of the fresh export are not reported a second time).
+def _texts(backend, opt, specs, before=None):
+    """-> (('ok', (text, text of the second parse() call)) | ('err', what), [outcome of every earlier export])"""
+    try:
+        o = outcome(_parse_env, dip_source(specs))
+        if o[0] != "ok":
+            return ("err", "env:%s" % o[1]), []
+        env = o[1]
+        hist = _history(env, specs, before)
+        plan = [(s["name"], _mode(backend, opt, s)) for s in specs]
+        o = outcome(export_text, backend, opt, env, None, plan, timeout=60)
+        if o[0] != "ok":
+            return ("err", "export:%s: %s" % (o[1], o[2])), hist
+        return ("ok", tuple(o[1])), hist
+    finally:
+        isolation.tables_restore()
+
+
+def _after_tags(before):
+    return ["after-earlier-export", "history-length=%d" % len(before)] + ["earlier=" + b for b, _ in before] + \
+           ["earlier-opt=%s/%s" % (b, oid) for b, oid in before]
+
+
+def _after_case(backend, opt, specs, before, target=None):
+    c = _case(backend, opt, specs, None, target)
+    c["before"] = [[b, oid] for b, oid in before]
+    return c
+
+
+def check_after(before, backend, opt, specs, sh, fresh=None, top=True):
+    """the export (backend, opt) of `specs` after the earlier exports `before` from the same environment object"""
+    if not specs:
+        return
+    before = [tuple(x) for x in before]
+    if fresh is None:
+        fresh = _texts(backend, opt, specs)[0]
+    seq, hist = _texts(backend, opt, specs, before)
+    if top:
+        for (b, oid), h in zip(before, hist):
+            sh.count("after:earlier-export-%s:%s" % ("ok" if h == "ok" else "raises", b))
+    n = len(specs)
+    if seq == fresh:
+        sh.evaluations += n
+        if seq[0] == "ok":
+            sh.nontrivial += n
+            sh.count("after:%s:same-text-as-fresh-export" % backend, n)
+        else:
+            sh.count("after:%s:same-failure-as-fresh-export" % backend, n)
+        return
+    sh.count("after:%s:text-differs-from-fresh-export" % backend)
+    rh = run_batch(backend, opt, specs, before=before)
+    rf = run_batch(backend, opt, specs)
+    for r in (rh, rf):
+        if r[0] == "ok":
+            sh.add_extra("programs", r[2]["programs"])
+        elif len(r) > 3:
+            sh.add_extra("programs", r[3])
+
+    def beh_of(r, s):
+        """None = agrees with the environment, else the class of the disagreement / batch failure"""
+        if r[0] != "ok":
+            return "batch:" + _STAGE[r[1]]
+        res = r[1].get(s["id"])
+        return res[0] if res else None
+
+    if rh[0] == "ok":
+        sh.add_extra("disagreements_checked", rh[2]["compared"])
+        for s in specs:
+            sh.evaluations += 1
+            sh.nontrivial += 1
+            res = rh[1].get(s["id"])
+            if res is None:
+                sh.count("after:%s:agree" % backend)
+                continue
+            if beh_of(rf, s) == res[0]:
+                sh.count("after:%s:disagrees-like-fresh-export" % backend)
+                continue
+            beh, want, got, tags = res
+            sub, cspecs, extra = "after-export", [s], []
+            if n > 1:
+                # confirm in isolation so that the replay file is small and self-contained
+                r1, f1 = run_batch(backend, opt, [s], before=before), run_batch(backend, opt, [s])
+                if not (r1[0] == "ok" and beh_of(r1, s) == beh and beh_of(f1, s) != beh):
+                    sub, cspecs, extra = "after-export-in-batch", specs, ["only-in-batch"]
+            sh.count("after:%s:%s" % (backend, beh))
+            sh.fail(failure(sub, _after_case(backend, opt, cspecs, before, s["name"]), want, got,
+                            tags=tags + _after_tags(before) + extra, behaviour="after-earlier-export:" + beh))
+        return
+    stage, msg = rh[1], rh[2]
+    if n > 1:
+        mid = n // 2
+        check_after(before, backend, opt, specs[:mid], sh, top=False)
+        check_after(before, backend, opt, specs[mid:], sh, top=False)
+        return
+    s = specs[0]
+    sh.evaluations += 1
+    if stage == "env" or beh_of(rf, s) == "batch:" + _STAGE[stage]:
+        sh.count("after:%s:fails-like-fresh-export" % backend)
+        return
+    sh.nontrivial += 1
+    beh = _STAGE[stage] + (":" + msg.split(":")[0] if stage == "export" else "")
+    sh.count("after:%s:%s" % (backend, beh))
+    sh.fail(failure("after-export", _after_case(backend, opt, [s], before, s["name"]),
+                    "exported text can be read back by the format's reader as without the earlier exports", msg,
+                    tags=tags_of(backend, opt, s, _mode(backend, opt, s)) + _after_tags(before),
+                    behaviour="after-earlier-export:" + beh))
+
+
+def all_optsets():
+    return [(b, o["id"]) for b in BACKENDS for o in optsets(b)]
+
+
+def histories(tier):
+    """quick: every single earlier export (back-end x option set); thorough: additionally every ordered pair of
+    earlier exports with the first option set of each back-end"""
+    hs = [[x] for x in all_optsets()]
+    if tier == "thorough":
+        firsts = [(b, optsets(b)[0]["id"]) for b in BACKENDS]
+        hs += [[x, y] for x in firsts for y in firsts]
+    return hs
+
+
+def run_after(backend, fam, window, tier, flat_too, sh):
+    for opt in optsets(backend):
+        if opt.get("flat") and not flat_too:
+            continue                  # option sets with flat names have one window only
+        w = 0 if opt.get("flat") else window
+        specs = _batch_specs(backend, opt, fam, w)
+        if not specs:
+            continue
+        fresh = _texts(backend, opt, specs)[0]
+        for before in histories(tier):
+            sh.count("after:histories")
+            check_after(before, backend, opt, specs, sh, fresh=fresh)
+
+
 # ---------------------------------------------------------------------------------------------- harness API
 def _prime_inspect_cache():
     """Speed only, no effect on results: DIP() calls inspect.stack(); frames whose file maps to no module (the
@@ -1107,6 +1331,7 @@ def _prime_inspect_cache():
 def init_worker():
     import scinumtools.dip  # noqa
     isolation.tables_snapshot()
+    class_state_snapshot()
     _prime_inspect_cache()
 
 
@@ -1146,6 +1371,10 @@ def plan(tier, seed):
     for backend in order:
         for r in reps:
             shards.append(("pairs", backend, r["id"], tier))
+    for backend in order:
+        for fam in fams:
+            for w in windows:
+                shards.append(("after", backend, fam, w, tier, w == windows[0]))
     return shards
 
 
@@ -1172,6 +1401,9 @@ def run_shard(desc):
     elif kind == "pairs":
         _, backend, rid, tier = desc
         run_pairs(backend, rid, sh, tier)
+    elif kind == "after":
+        _, backend, fam, w, tier, flat_too = desc
+        run_after(backend, fam, w, tier, flat_too, sh)
     else:
         raise HarnessError("unknown shard %r" % (desc,))
     return sh
@@ -1204,7 +1436,10 @@ def replay(rec):
                 return failure("pair", c, rec["expected"], pb or "agrees", tags=rec["tags"],
                                behaviour="differs-next-to-other-parameter")
         return None
-    check_batch(backend, opt, specs, sh, sel)
+    if rec["sub"].startswith("after-export"):
+        check_after(c["before"], backend, opt, specs, sh)
+    else:
+        check_batch(backend, opt, specs, sh, sel)
     cands = sh.failures + [k["example"] for k in sh.known.values()]
     for f in cands:
         if f["sub"] == rec["sub"] and f["behaviour"] == rec["behaviour"] and \
@@ -1229,6 +1464,12 @@ def finish(total, tier, seed):
             raise HarnessError("vacuous: selection phase lacks outcome %s" % k)
     if progs < 100:
         raise HarnessError("vacuous: only %d programs" % progs)
+    nh = len(histories(tier))
+    for b in BACKENDS:
+        if not h.get("after:earlier-export-ok:%s" % b):
+            raise HarnessError("vacuous: no history in which an earlier %s export succeeded" % b)
+        if not h.get("after:%s:same-text-as-fresh-export" % b) and not h.get("after:%s:agree" % b):
+            raise HarnessError("vacuous: no %s export after an earlier export could be compared" % b)
     base = base_params()
     return dict(programs=progs, disagreements_checked=int(total.extra.get("disagreements_checked", 0)),
                 parameters_in_space=len(base), families=len(families()), backends=BACKENDS,
@@ -1236,6 +1477,15 @@ def finish(total, tier, seed):
                 name_kind_windows=[seed % NAMEKINDS] if tier == "quick" else list(range(NAMEKINDS)),
                 window=seed % NAMEKINDS, selections=len(select_queries()),
                 pair_representatives=len(representatives(tier)),
+                export_histories=dict(
+                    histories_per_export=nh, executed=int(h.get("after:histories", 0)),
+                    earlier_exports=["%s/%s" % x for x in all_optsets()],
+                    max_earlier_exports=max(len(x) for x in histories(tier)),
+                    export_under_test="every back-end x option set x parameter family",
+                    parameters_same_text_as_fresh_export=sum(v for k, v in h.items()
+                                                             if k.endswith(":same-text-as-fresh-export")),
+                    batches_read_back_because_text_differs=sum(v for k, v in h.items()
+                                                               if k.endswith(":text-differs-from-fresh-export"))),
                 bounds=dict(dtypes=DTYPES, shapes=["scalar", [3], [2, 3], [2, 2, 2]], unit=[None, UNIT],
                             name_kinds=["p", "grp.p", "box.cellSize.p"]),
                 caps_hit=[])
@@ -1252,10 +1502,16 @@ MANIFEST = dict(
          "units, define/const/constexpr, export, guard/module) and the exported text is compiled / loaded by the "
          "format's own tool (gcc, g++, gfortran, rustc, bash, json, yaml, tomllib, DIP re-parse); symbol, declared "
          "type/width/sign, shape and every element by index are compared with the environment. Uncompilable batches "
-         "are delta-debugged down to single parameters. Selections by query/tag and ordered pairs are covered.",
+         "are delta-debugged down to single parameters. Selections by query/tag and ordered pairs are covered. "
+         "Histories of exports of ONE environment object: every back-end x option set is exported after every single "
+         "earlier export (22 x 22 ordered option-set pairs incl. the same exporter twice; thorough: also after every "
+         "ordered pair of earlier back-ends, 81 x 22) for every parameter family and compared with the environment as "
+         "it was parsed (an exporter that rewrites the environment's type/value objects is seen by the next export).",
     note="Trusted: the compilers/loaders as reference semantics, printer programs that dispatch on the declared type "
          "in the target language, float32 compared after rounding (1 ulp). Not demanded: Fortran signedness, Rust "
          "f128, none where the documentation is silent, line length, warnings. Quick explores one name-kind window "
-         "(seed mod 3), thorough all three plus reversed batch order.",
+         "(seed mod 3), thorough all three plus reversed batch order. Histories: an export whose text is identical to "
+         "the fresh export's text is decided by the batch-phase read-back of that text; earlier exports use no "
+         "select(); longer histories than one (thorough: two) earlier exports are not explored.",
     technique="bounded exhaustive enumeration + compile-and-run read-back with delta debugging",
 )
